@@ -289,3 +289,6 @@ def run(ctx):
             ok = ok and bool(pre) and pre[-1].fact == ("eq", True)
         ctx.check(ok, "D2-RCSID-RAW", LFB, "rcsid", "RcsId = the raw line (from_vec) when it starts with \"$NetBSD: \"",
                   "the RCS Id is not stored as the raw bytes (through the end of the line: trailing bytes are data) of a line starting with \"$NetBSD: \"", fn_span(body))
+
+    # ---- the accessors through which a parsed file is observed (and which the writer itself uses)
+    distinfo_accessors(ctx, "D4-ACCESSOR")
